@@ -56,6 +56,9 @@ type resetRec struct {
 	Name string   `json:"name"`
 	Case int      `json:"case"`
 	Msgs []appMsg `json:"msgs"`
+	// Hint is diagnosis only (it names the class of a rejection, it never decides one): "fixed-chunk-size-128" when the
+	// bytes do not frame into the written messages at the chunk size in force but do if the chunk size never changes.
+	Hint string `json:"hint"`
 }
 
 type chunkRec struct {
@@ -147,7 +150,7 @@ func write(c *rp.Ctx, s session, nextID *int) (app []appMsg, wire []byte, err er
 // consecutive offsets, payload matching): a 65536-byte message at chunk size 1 is three records.
 func records(app []appMsg, wire []byte) (recs []interface{}, nchunks int) {
 	var last *chunkRec
-	jk := tokenize(wire, func(t token) {
+	jk := tokenize(wire, true, func(t token) {
 		nchunks++
 		pm, pmn := false, 0
 		if t.Mi >= 1 && t.Mi <= len(app) {
@@ -208,7 +211,7 @@ func (t *traceWriter) session(name string, i int, app []appMsg, wire []byte) ses
 	}
 	recs, nchunks := records(app, wire)
 	info := sessInfo{First: t.line + 1, Chunks: nchunks, Bytes: len(wire), Msgs: len(app)}
-	t.put(&resetRec{Ev: "reset", Name: name, Case: i, Msgs: app})
+	t.put(&resetRec{Ev: "reset", Name: name, Case: i, Msgs: app, Hint: hint(app, wire, recs)})
 	for _, rec := range recs {
 		t.put(rec)
 	}
@@ -224,6 +227,36 @@ func (t *traceWriter) close() {
 	t.f.Close()
 }
 
+// hint: see resetRec.Hint.
+func hint(app []appMsg, wire []byte, recs []interface{}) string {
+	clean := true
+	for _, r := range recs {
+		if c, ok := r.(*chunkRec); !ok || !c.Pm {
+			clean = false
+		}
+	}
+	if clean {
+		return ""
+	}
+	ok, done := true, 0
+	jk := tokenize(wire, false, func(t token) {
+		if t.Mi < 1 || t.Mi > len(app) {
+			ok = false
+			return
+		}
+		b := app[t.Mi-1].body
+		if t.Off+t.Pay > len(b) || !bytes.Equal(b[t.Off:t.Off+t.Pay], t.Body) {
+			ok = false
+		} else if t.Off+t.Pay == len(b) {
+			done++
+		}
+	})
+	if jk == nil && ok && done == len(app) {
+		return "fixed-chunk-size-128"
+	}
+	return ""
+}
+
 type sessInfo struct {
 	First  int `json:"first"` // 1-based line of the reset record
 	Last   int `json:"last"`
@@ -235,7 +268,13 @@ type sessInfo struct {
 func init() {
 	batchRegistry["record"] = func(c *rp.Ctx, cases []json.RawMessage) []rp.Result {
 		if c.Dir == "" {
-			rp.Bug("record needs -dir")
+			// vcheck X03 --replay <file>: re-record the session; the records are in <tmp>/trace.ndjson (the verdict is TLC's: ./vcheck X03)
+			d, err := os.MkdirTemp("", "x03-replay-")
+			if err != nil {
+				rp.Bug("%v", err)
+			}
+			c.Dir = d
+			fmt.Fprintln(os.Stderr, "x03: trace written to", filepath.Join(d, "trace.ndjson"))
 		}
 		tw := newTraceWriter(c.Dir)
 		nextID := 0
